@@ -12,6 +12,12 @@ C = 'histories: BFS over operation sequences against a model of the global gener
 
 # id -> (engine, technique, level text, level note, design ref)
 CHECKS = {
+    'C06': ('rngmc', 'explicit-state exploration of ALL generator answers (node-quadruple picks incl. rejected ones, weight-dealing orders) on signed 4-node inputs',
+            'randmio_und_signed / randmio_dir_signed (1-2 iterations, 256-way pick menu) and null_model_und_sign / null_model_dir_sign '
+            '(bin_swaps 0 / one iteration x wei_freq 0, 1, 0.5) on symmetric and directed sign patterns with distinct magnitudes: every reachable '
+            'output keeps per-node positive/negative in/out degrees and both weight multisets, empty diagonal, symmetry, and the returned '
+            'correlations equal np.corrcoef of input and output strength sequences; per-state invariant inside the rewirers.',
+            'trusted: state keys as C01; distinct integer magnitudes; n=4 only (n=5 menus of 625 in thorough)', 'DESIGN.md section 4 C06'),
     'C01': ('rngmc', 'explicit-state exploration of ALL random-generator answer sequences on the real rewiring code (state-hash pruning), oracle on every execution + state invariants',
             'For ~4900 (quick) configurations routine x input graph x budget, every sequence of generator answers is executed on the real function '
             'through a scripted RandomState (seed= seam); retry loops are merged by a live-variable state key. Every completed execution is judged '
